@@ -43,6 +43,7 @@ MONITORS = {
     18: ("withdrawable changed by something else than entries maturing at this height minus withdrawals", []),
     19: ("a successful UNSTAKE left no maturing entry at height + the maturity option in force in the store", []),
     20: ("a STAKE/UNSTAKE/WITHDRAW naming a frozen validator was accepted", []),
+    22: ("an UNSTAKE/WITHDRAW naming a validator was accepted between its GUILTY verdict and the next successful RELEASE", []),
     21: ("the penalty taken by a GUILTY verdict differs from the configured share of the convicted validator's own total", []),
 }
 MM_CODES = {1: "ok/fail", 2: "balance change", 3: "st__e_", 4: "st__t_", 5: "st__d_e_", 6: "st__d_b_", 7: "st__m_", 8: "v_ record"}
@@ -182,7 +183,7 @@ def run(ctx):
     clean_cases = len(cases) - len({c for (c, _, _) in trg})
     ctx.coverage.update({
         "evaluations": rep["steps"], "distinct_nontrivial": rep["txs"],
-        "rule": "13 scripted histories (life cycle, configuration-update proposals about stakingOptions.* between stake and unstake — refused, CheckTx only, created, funded but unvoted, and one finalised on a production-range genesis —, GUILTY verdicts on both validators of a stake account that backs two validators, several unstakes of one delegator maturing at the same height from the same and from another validator, the former refuted-theorem witnesses, verdict+freeze, maturity option change on a genesis "
+        "rule": "14 scripted histories (life cycle, a validator convicted, released after the release time and convicted again with unstake/withdraw attempts after each verdict, configuration-update proposals about stakingOptions.* between stake and unstake — refused, CheckTx only, created, funded but unvoted, and one finalised on a production-range genesis —, GUILTY verdicts on both validators of a stake account that backs two validators, several unstakes of one delegator maturing at the same height from the same and from another validator, the former refuted-theorem witnesses, verdict+freeze, maturity option change on a genesis "
                 "with maturing amounts) + seeded random histories of 14-23 blocks over 6 validators (4 genesis, 2 candidates) and their "
                 "stake accounts (candidates partly staked from a genesis validator's account; bursts of 2-4 unstakes of one delegator per block): stake/unstake/withdraw with amounts around 0, the balance (1,000,000 OLT), the validator total, and in a "
                 "third of the histories 2^63-1, 2^64, 2^64+1000, 2^65, -1, -100, -2^64 (all rejected since fix 48c76fc); a GUILTY verdict in half of them (in two thirds of those the convicted validator's stake account backs a second validator: larger or smaller share); maturity 0..5; "
@@ -191,7 +192,7 @@ def run(ctx):
         "crashed_histories": rep.get("crashed_histories") or [],
         "restarts": rep.get("restarts"), "restarts_between_endblock_and_commit": rep.get("restarts_between_endblock_and_commit"),
         "restarts_after_verdict_block": rep.get("restarts_after_verdict_block"),
-        "verdicts_on_shared_stake_account": rep.get("verdicts_on_shared_stake_account"),
+        "verdicts_on_shared_stake_account": rep.get("verdicts_on_shared_stake_account"), "successful_releases": rep.get("successful_releases"),
         "staking_option_proposals": {k: rep.get(k) for k in ("staking_option_proposals_checktx", "staking_option_proposals_delivered",
                                       "staking_option_proposals_created", "staking_option_proposals_refused_at_checktx",
                                       "persisted_maturity_option_changes")},
